@@ -203,6 +203,11 @@ pub fn udp_config(g: &mut Gen, proto: Proto, cipher: &str, transport: Transport,
 }
 
 pub async fn run_udp_system(plan: &Plan, up: &UdpPlan) -> UdpRun {
+    run_udp_system_via(plan, up, SERVER_PORT).await
+}
+
+/// `via_port`: where the client dials its server (the man-in-the-middle node's port when there is one)
+pub async fn run_udp_system_via(plan: &Plan, up: &UdpPlan, via_port: u16) -> UdpRun {
     world::with(|w| {
         for t in &up.targets {
             if let Some(n) = &t.name {
@@ -228,7 +233,7 @@ pub async fn run_udp_system(plan: &Plan, up: &UdpPlan) -> UdpRun {
         app_send_err: vec![None; n_apps],
     }));
     let mut run = UdpRun { startup_err: None, obs: UdpObs::default(), udp_bound_end: (false, false), mains_finished: (false, false), server_udp_sends: Vec::new() };
-    let mains = match start_system(&plan.config, "127.0.0.1", SERVER_PORT).await {
+    let mains = match start_system(&plan.config, "127.0.0.1", via_port).await {
         Ok(m) => m,
         Err(e) => {
             run.startup_err = Some(e);
